@@ -14,6 +14,8 @@ def profile(tier, shard):
     if tier == 'thorough':
         p.max_types = 6
         p.max_depth = 4
+    if os.environ.get('ASN1V_SMALL') == '1':
+        p.max_types, p.max_depth, p.max_members, p.max_modules = 2, 2, 3, 1
     if shard.get('variant') == 'nodefaults':
         p.defaults = False
     return p
@@ -90,7 +92,7 @@ class C01(Check):
     def run_shard(self, shard, tier, seed, rec):
         codec, ne = shard['codec'], shard['ne']
         scale = float(os.environ.get('ASN1V_SCALE', '1'))
-        n = int((40 if tier == 'quick' else 1200) * scale)
+        n = int((100 if tier == "quick" else 1500) * scale)
         prof = profile(tier, shard)
         vcfg = values.ValCfg(numeric_enums=ne, big=shard.get('big', False), nan=(codec != 'oer'))
         strat = common.spec_cases(prof, vcfg)
